@@ -478,6 +478,16 @@ def check(prop, tier, seed, budget_s=None, max_runs=None, workers=None,
             by_class.setdefault(violation_class(rec), (rs, program, rec))
         with make_pool(workers) as pool:
             for cls, (rs, program, rec) in sorted(by_class.items(), key=repr):
+                # a listed finding is recognised by its violation class and
+                # record, which shrinking preserves: no need to minimise it
+                # again on every run
+                known = match_known(rec, findings)
+                if known is not None:
+                    key = known.get('id') or known.get('what')
+                    if key not in known_printed:
+                        known_printed.add(key)
+                        log(f'KNOWN-FINDING: property={prop} {known.get("what")}')
+                    continue
                 small, small_rec, steps = shrink(prop, program, rec, pool,
                                                  budget_s=90 if tier == 'quick' else 300)
                 known = match_known(small_rec, findings)
